@@ -268,21 +268,27 @@ Section History.
   Variable hash_ok : bytes -> bool.     (* argon2.extract_parameters accepts the hash *)
   Variable a : app.
 
-  (* WebAuth.configure for web_password: an invalid hash raises OptionsError before
-     _password is assigned (and the option is rolled back) *)
-  Definition configure (stored opt fresh : bytes) : bytes :=
+  (* WebAuth.configure for web_password.  State: token_mode (the option is empty) and _password.
+     _password = web_password or secrets.token_hex(16).  An invalid hash raises OptionsError
+     before _password is assigned; the option is rolled back and configure runs again with
+     the old value, which draws a new random token when the old value was empty. *)
+  Definition configure (st : bool * bytes) (opt fresh : bytes) : bool * bytes :=
+    let '(token_mode, stored) := st in
     match opt with
-    | c :: _ => if byte_eqb c x_dollar then (if hash_ok opt then opt else stored) else opt
-    | [] => fresh
+    | c :: _ =>
+        if byte_eqb c x_dollar && negb (hash_ok opt)
+        then (token_mode, if token_mode then fresh else stored)
+        else (false, opt)
+    | [] => (true, fresh)
     end.
 
   (* the only WebAuth state is _password; is_valid_password does not write anything *)
-  Fixpoint run_history (stored : bytes) (s : St) (h : list step) : list (response D) :=
+  Fixpoint run_history (st : bool * bytes) (s : St) (h : list step) : list (response D) :=
     match h with
     | [] => []
-    | SetPassword opt fresh :: r => run_history (configure stored opt fresh) s r
+    | SetPassword opt fresh :: r => run_history (configure st opt fresh) s r
     | Request q :: r =>
-        let out := handle St D inner argon2_verify stored a s q in
-        snd out :: run_history stored (fst out) r
+        let out := handle St D inner argon2_verify (snd st) a s q in
+        snd out :: run_history st (fst out) r
     end.
 End History.
